@@ -42,7 +42,10 @@ package db
 //@   props C18
 //@   uses plan.smt2
 //@   let S = DbState(backend)
-//@   ensures @C18 res == (bfs(S, entry(1, arr(todo)), entry(1, len(todo)), 0) == dbNum(S))
+//@   ghostret ROOTS (Array Int String) = entry(1, arr(todo))
+//@   ghostret NROOTS Int = entry(1, len(todo))
+//@   ensures @C18 bound(ROOTS) && bound(NROOTS)
+//@   ensures @C18 res == (bfs(S, ROOTS, NROOTS, 0) == dbNum(S))
 //@   loop 1
 //@     invariant numEntries == i && 0 <= i && i <= len(todo)
 //@     invariant @C18 bfs(S, arr(todo), len(todo), i) == bfs(S, entry(arr(todo)), entry(len(todo)), 0)
